@@ -109,7 +109,7 @@ def KeylessAggregate(rng):
   return prog, ['Total', 'Stats', 'Share', 'Span'], ['fam_keyless_aggregate']
 
 
-def WithGroundChain(rng, e_first=None):
+def WithGroundChain(rng, e_first=None, g_first=None):
   """E -> W -> G, Main reads W and G; G reads E before W (and the mirrored
   order): exercises WITH tables shared between a grounded predicate and the
   main query."""
@@ -126,12 +126,18 @@ def WithGroundChain(rng, e_first=None):
   G = Pred('G', [Rule([('col0', x, ''), ('col1', z, '')],
                       [Atom(first, [('col0', x), ('col1', y)]),
                        Atom(second, [('col0', x), ('col1', z)])], True)])
+  if g_first is None:
+    g_first = rng.random() < 0.5
+  main_body = [Atom('W', [('col0', x), ('col1', y)]),
+               Atom('G', [('col0', x), ('col1', z)])]
+  if g_first:
+    main_body.reverse()
   Main = Pred('Main', [Rule([('col0', x, ''), ('col1', y, ''), ('col2', z, '')],
-                            [Atom('W', [('col0', x), ('col1', y)]),
-                             Atom('G', [('col0', x), ('col1', z)])])])
+                            main_body)])
   prog = Prog([T, E, W, G, Main])
   return prog, ['E', 'W', 'G', 'Main'], [
-      'fam_with_ground_chain', 'fam_chain_%s_first' % first]
+      'fam_with_ground_chain', 'fam_chain_%s_first' % first,
+      'fam_main_%s_first' % ('G' if g_first else 'W')]
 
 
 C08_FAMILIES = [
@@ -141,8 +147,10 @@ C08_FAMILIES = [
     ('inject_negation_shared', lambda r: InjectNegation(r, True)),
     ('inject_negation_distinct', lambda r: InjectNegation(r, False)),
     ('keyless_aggregate', KeylessAggregate),
-    ('with_ground_chain_e_first', lambda r: WithGroundChain(r, True)),
-    ('with_ground_chain_w_first', lambda r: WithGroundChain(r, False)),
+    ('with_ground_chain_e_g', lambda r: WithGroundChain(r, True, True)),
+    ('with_ground_chain_e_w', lambda r: WithGroundChain(r, True, False)),
+    ('with_ground_chain_w_g', lambda r: WithGroundChain(r, False, True)),
+    ('with_ground_chain_w_w', lambda r: WithGroundChain(r, False, False)),
 ]
 
 
